@@ -25,7 +25,12 @@ OffStrs == {<<>>, <<90>>, <<122>>} \cup {<<sg>> \o Pad2(h) \o <<58>> \o Pad2(m) 
 EdgeDates == {DateStr(y, m, d) : y \in {0, 1, 1900, 2000, 2023, 2024, 9999}, m \in 0..13, d \in {0, 1, 28, 29, 30, 31, 32}}
 EdgeTimes == {TimeStr(h, mi, s) \o f : h \in {0, 23, 24}, mi \in {0, 59, 60}, s \in {0, 59, 60, 61}, f \in {<<>>, <<46>>, <<46, 53>>, <<46, 49, 50, 51, 52, 53, 54, 55, 56, 57, 48, 49, 50>>}}
 EdgeFull == {DateStr(1979, 5, 27) \o <<dl>> \o t \o o : dl \in {84, 116, 32}, t \in EdgeTimes, o \in OffStrs}
-Edges == EdgeDates \cup EdgeTimes \cup EdgeFull
+\* parts in combinations the grammar does not have: an offset on a time or a date alone, a delimiter without a time
+EdgeCombos == {TimeStr(7, 32, 0) \o f \o o : f \in {<<>>, <<46, 53>>}, o \in OffStrs}
+              \cup {DateStr(1979, 5, 27) \o o : o \in OffStrs}
+              \cup {DateStr(1979, 5, 27) \o <<dl>> \o o : dl \in {84, 116, 32}, o \in OffStrs}
+              \cup {TimeStr(7, 32, 0) \o <<dl>> \o DateStr(1979, 5, 27) : dl \in {84, 32}}
+Edges == EdgeDates \cup EdgeTimes \cup EdgeFull \cup EdgeCombos
          \cup {<<49, 57, 55, 57, 45, 53, 45, 50, 55>>, <<49, 57, 55, 57, 48, 53, 50, 55>>, <<55, 58, 51, 50, 58, 48, 48>>, <<48, 55, 58, 51, 50>>,
                <<49, 57, 55, 57, 45, 48, 53, 45, 50, 55, 84>>, <<49, 57, 55, 57, 45, 48, 53, 45, 50, 55, 32>>,
                <<49, 57, 55, 57, 45, 48, 53, 45, 50, 55, 84, 48, 55, 58, 51, 50>>, <<>>}
